@@ -64,6 +64,8 @@ pub struct MoneyFlowIndex {
     total_positive_money_flow: f64,
     total_negative_money_flow: f64,
     deque: Box<[f64]>,
+    // which running total each slot of `deque` was added to
+    positive: Box<[bool]>,
 }
 
 impl MoneyFlowIndex {
@@ -78,6 +80,7 @@ impl MoneyFlowIndex {
                 total_positive_money_flow: 0.0,
                 total_negative_money_flow: 0.0,
                 deque: vec![0.0; period].into_boxed_slice(),
+                positive: vec![true; period].into_boxed_slice(),
             }),
         }
     }
@@ -108,11 +111,14 @@ impl<T: High + Low + Close + Volume> Next<&T> for MoneyFlowIndex {
                 return 50.0;
             }
         } else {
+            // Remove the evicted flow from the total it was added to. The bucket is remembered
+            // explicitly: the sign of the flow cannot tell, because the raw money flow itself is
+            // negative for a negative volume or a negative typical price.
             let popped = self.deque[self.index];
-            if popped.is_sign_positive() {
+            if self.positive[self.index] {
                 self.total_positive_money_flow -= popped;
             } else {
-                self.total_negative_money_flow += popped;
+                self.total_negative_money_flow -= popped;
             }
         }
 
@@ -120,12 +126,15 @@ impl<T: High + Low + Close + Volume> Next<&T> for MoneyFlowIndex {
             let raw_money_flow = tp * input.volume();
             self.total_positive_money_flow += raw_money_flow;
             self.deque[self.index] = raw_money_flow;
+            self.positive[self.index] = true;
         } else if tp < self.previous_typical_price {
             let raw_money_flow = tp * input.volume();
             self.total_negative_money_flow += raw_money_flow;
-            self.deque[self.index] = -raw_money_flow;
+            self.deque[self.index] = raw_money_flow;
+            self.positive[self.index] = false;
         } else {
             self.deque[self.index] = 0.0;
+            self.positive[self.index] = true;
         }
         self.previous_typical_price = tp;
 
@@ -156,6 +165,7 @@ impl Reset for MoneyFlowIndex {
         self.total_negative_money_flow = 0.0;
         for i in 0..self.period {
             self.deque[i] = 0.0;
+            self.positive[i] = true;
         }
     }
 }
